@@ -20,6 +20,21 @@ CLAIMED = {
         'note': TB + ' Assumes: bad_alloc from ordinary allocation and the embedded-network integrity error are out of scope (named exemptions).',
         'technique': 'custom static analysis: null typestate dataflow + exception-flow + must-pass-through/who-may-call over clang AST/CFG/call graph',
     },
+    'C08': {
+        'text': 'Clause-limited static decision (level "other"): (1) raw slot words are touched only by the xor codec, the slot '
+                'constructors and the tablebase byte accessors; table[] is indexed only through getIndex(key)+i (i below the bucket '
+                'constant), whole-table loops or the guarded sample loop; (2) both slot words are std::atomic<U64>, store/load form an '
+                'xor codec and probe hands a record out only after the decoded key matched; (3) all seven bit-fields: getter/setter '
+                'agree, pairwise disjoint, value ranges (TType, depth, mate scores, compressed move, generation mask) fit; (4) '
+                'setScore/getScore shift mate scores by ply with the same predicates and opposite signs; (5) bucket constants agree; '
+                '(6) index bound: floor-halving loop lemma for setUsedSize + exact constant evaluation of getIndex at the extreme key '
+                'for every (topBits, shift) of the domain gives idx+3 < topBits*2^shift <= usedSize (all sizes >= 512 entries, all keys). '
+                'Right level: "never a blend", "inside the table for every size and key" quantify over schedules/sizes/keys; the type, '
+                'codec and arithmetic obligations cover them all at once where a stress test samples.',
+        'design_ref': 'DESIGN.md section 2, C08',
+        'note': TB + ' Does not decide torn-read freedom beyond "atomics + xor validation are in place" (memory-model argument).',
+        'technique': 'custom static analysis: who-may-access + index provenance + sibling/inverse agreement + constant evaluation over finite parameter domains with a loop-idiom lemma',
+    },
     'C12': {
         'text': 'Clause-limited static decision (level "other"): (1) the on-demand generator object and the reserved-region flag of the '
                 'transposition table form an inductive class invariant - no method can return with a constructed-but-not-generated '
